@@ -93,10 +93,8 @@ Section ClusterP.
   Variable near : point -> point -> bool.
   Hypothesis bins_nodup : forall p, NoDup (bins p).
 
-  Definition votes (b : bin) (p : point) : bool := existsb (Pos.eqb b) (bins p).
-  (* every bin holds exactly the live points that vote for it, with multiplicity *)
-  Definition Acc_inv (live : list point) (a : accum) : Prop :=
-    forall b, Permutation (acc_get a b) (filter (votes b) live).
+  Local Notation votes := (Cluster.votes bins).
+  Local Notation Acc_inv := (Cluster.Acc_inv bins).
 
   Lemma mem_in (b : bin) l : existsb (Pos.eqb b) l = true <-> In b l.
   Proof.
